@@ -292,3 +292,17 @@ Example C19_example_commute_needs_hypotheses :
   merge_lang (adjust_lang 0 5 caps) = Ok [cz 5 5 [1%Z; brk; 2%Z; brk; 3%Z]] /\
   merge_lang (adjust_lang 2 1 caps) = Ok (adjust_lang 2 1 caps).
 Proof. vm_compute. repeat split. Qed.
+
+(* ---------------- heap level (wave 7, round 2) ---------------- *)
+(* the heap after adjust_caption_timing, for EVERY alias structure (one Caption object reachable from several languages
+   or listed several times in one list - the shape behind fix C19-adjust-shared-caption-objects): every listed object
+   holds its initial times retimed exactly once, and set_captions gives every language, in order, the references whose
+   retimed start is not negative.  (C19_adjust_objects_value above is the same fact seen through get_captions.) *)
+Theorem C19_adjust_objects_heap : forall skew off h0 langs,
+  (forall ids k, In ids langs -> In k ids -> (k < length h0)%nat) ->
+  exists h' adj',
+    adjust_obj_langs true skew off (h0, []) langs = ((h', adj'), map (filter (keep skew off h0)) langs) /\
+    length h' = length h0 /\
+    forall ids k, In ids langs -> In k ids -> deref h' k = retime skew off (deref h0 k).
+Proof. exact adjust_objs_heap. Qed.
+Print Assumptions C19_adjust_objects_heap.
